@@ -52,6 +52,10 @@ def faults_for(plan: Dict[str, Any], spec: Dict[str, Any]) -> List[Dict[str, Any
             # a TRANSIENT failure of a calculation wrapped by two pass-through extenders (the composite extender of
             # function_extender.py): it must be reported although a second execution would succeed
             out.append({"kind": "calc_once_ext", "sid": s["sid"], "group": s["group"], "feature": s["names"][0], "msg": "VERIF-FAULT calc"})
+            # a TRANSIENT environment failure (ConnectionError / TimeoutError / OSError: raises only the first time that calculation
+            # is executed): reported, not retried behind the caller's back (C01: every feature is handed to its calculation once)
+            out.append({"kind": "calc_once_env", "sid": s["sid"], "group": s["group"], "feature": s["names"][0], "msg": "VERIF-FAULT calc",
+                        "exc": ["ConnectionError", "TimeoutError", "OSError", "BrokenPipeError"][s["sid"] % 4]})
             if s["group"] in derived:
                 out.append({"kind": "validate_in", "sid": s["sid"], "group": s["group"], "msg": "False"})
         elif s["kind"] == "TFS":
@@ -79,6 +83,10 @@ def run_fault(spec: Dict[str, Any], fault: Dict[str, Any], mode_name: str, strea
     elif fault["kind"] == "calc_once_ext":
         uni.fail_once.add((fault["group"], fault["feature"]))
         kw["function_extender"] = _pass_through_extenders(2)
+    elif fault["kind"] == "calc_once_env":
+        import builtins
+        uni.fail_exc = getattr(builtins, fault["exc"])
+        uni.fail_once.add((fault["group"], fault["feature"]))
     elif fault["kind"] == "validate_in":
         uni.fail_validate_in.add(fault["group"])
     elif fault["kind"] == "validate_out":
@@ -105,7 +113,7 @@ def run_fault(spec: Dict[str, Any], fault: Dict[str, Any], mode_name: str, strea
         res["exc_tail"] = txt[-160:]
     elif o["status"] == "ok":
         res["n_results"] = len(o["result"]) if o.get("result") is not None else None
-    if fault["kind"] == "calc_once_ext":
+    if fault["kind"] in ("calc_once_ext", "calc_once_env"):
         res["executions"] = uni.fail_once_hits.get((fault["group"], fault["feature"]), 0)
     return res
 
@@ -206,8 +214,9 @@ def run(rep: vlib.Reporter, tier: str, seed: int) -> None:
         if not big:
             allf = flts
             flts = rng.sample(flts, min(len(flts), 6))
-            if not any(f_["kind"] == "calc_once_ext" for f_ in flts):
-                flts.append(rng.choice([f_ for f_ in allf if f_["kind"] == "calc_once_ext"]))
+            for must in ("calc_once_ext", "calc_once_env"):
+                if not any(f_["kind"] == must for f_ in flts):
+                    flts.append(rng.choice([f_ for f_ in allf if f_["kind"] == must]))
         for f in flts:
             for mode_name in (("SYNC", "THREADING") if threading_ok else ("SYNC",)):
                 for stream in (False, True):
@@ -284,6 +293,10 @@ def run(rep: vlib.Reporter, tier: str, seed: int) -> None:
             found = True
         else:
             dist["raised_with_message"] += 1
+        if c.get("executions", 1) > 1 and c["mode"] != "MULTIPROCESSING":
+            rep.finding(f"reexecuted:{key}", f"fault {c['fault']} in {c['mode']}: the failing calculation was executed {c['executions']} times in one "
+                                             f"run (a failure is reported, not retried behind the caller's back)", c)
+            found = True
         if c["mode"] == "SYNC" and not c["stream"] and c["plan"] is not None and c["fault"]["kind"] not in ("api_missing", "api_empty"):
             sync_idx.append(i)
             sync_terms.append(f"({cq_plan(c['plan'])}, ({cq_list(cq_nat(x) for x in c['begin'])}, {cq_nat(min(c['scans'], 4000))}, "
